@@ -7,7 +7,7 @@ import z3
 import fpops
 from fpops import FV, EngineError, CTX
 from values import Ptr, Slice, Str, Iface, Func, MapRef, Tup, Agg, b_not, b_and, b_or, b_term, bv
-from symex import intercept, PathEnd, ForkReq, Obligation, STUBS
+from symex import intercept, PathEnd, ForkReq, ForkList, Obligation, STUBS
 
 
 def stub(name):
@@ -109,7 +109,7 @@ def vp_choice(ex, st, fr, ins, args):
         v = ex.presets[k]
         st.choices[k] = v
         return v
-    outs = []
+    outs = ForkList()
     for v in range(n):
         s2 = st if v == n - 1 else st.fork()
         s2.choices[k] = v
